@@ -482,6 +482,12 @@ theorem decoded_well_formed (fuel : Nat) (inp : Bytes) (t : Tmpl) (r : Bytes) (h
   have := decItem_wf fuel inp t r h hb
   exact ⟨this.1, this.2, closed_vars_nil t this.2⟩
 
+/-- every data message `hsms.Parse` returns, for EVERY byte string, is a valid message whose item
+is absent (a header-only message) or well formed and variable-free -/
+theorem decoded_message_well_formed (inp : Bytes) (m : Msg) (h : decode inp = some (.data m)) (hb : IsBytes inp) :
+    m.valid = true ∧ (m.item = .empty ∨ (m.item.wf = true ∧ m.item.closed = true)) :=
+  decode_data_wf inp m h hb
+
 /-- non-vacuity (a test): `<L <U1 1 x> y>` is reachable by two factory calls -/
 example : Reach (.list (.item (.uint 1 [.val 1, .var [120]]) (.var [121] .nil))) :=
   Reach.list [.item (.uint 1 [.val 1, .var [120]]), .str [121]] _
